@@ -73,3 +73,11 @@ add("C25", "model_checking",
     "the result must be exactly {relative POSIX path -> stripped content} over the visible files, or errors naming every offending file; never an exception. "
     "The key regular expression is encoded as an NFA reachability term read from the real compiled pattern.",
     "pathlib is replaced by vf.fakefs (validated against a real directory on every run); witnesses are replayed on a real temporary directory. Bounds in evidence.")
+
+add("C03", "model_checking",
+    "bounded symbolic execution (CrossHair/z3) of main.execute, run.load_model and all eight <target>/main.py:execute with nondeterministic step stubs: failing step index, failing file operation, bad snippet and error messages symbolic; path trees exhausted",
+    "Every driver is executed with each generator step replaced by a stub that fails or succeeds according to a symbolic index and returns symbolic error messages "
+    "(flat and nested); file operations may fail at a symbolic index. Asserted: no exception; exit 0 iff stderr is empty and then stdout ends with the closing line; "
+    "a failed step always yields a non-zero exit and a report 'headline:' + exactly one correctly indented '* ' entry per injected error (nothing dropped, nothing duplicated).",
+    "The generator steps themselves are stubbed (their result shape is derived from the real return annotations); messages satisfy write_error_report's preconditions, "
+    "hold no whitespace-only lines and no line separators other than U+000A. Whether the front end finds every independent error of a model is outside.")
